@@ -11,6 +11,7 @@ import (
 func main() {
 	report.Main(map[string]*report.Check{
 		"C03": c03(),
+		"C05": c05(),
 	})
 }
 
